@@ -28,7 +28,7 @@ INFO = dict(
   stubs=['fake underlying sinks recording Open/Close/CreateSink (3.12)', 'virtual loop (3.1)'],
   assumptions=['A1, A3'],
 )
-EXPECT_COVERS = ['refcount-first-open', 'refcount-surplus-close', 'refcount-last-close', 'shared-same-key', 'shared-different-key',
+EXPECT_COVERS = ['refcount-open-during-close', 'refcount-first-open', 'refcount-surplus-close', 'refcount-last-close', 'shared-same-key', 'shared-different-key',
                  'singleton-concurrent-first', 'singleton-replaced-after-failure']
 
 
@@ -63,6 +63,7 @@ def jobs(tier):
   js = [dict(name='refcount-step-open', op='rc-open', cost=1), dict(name='refcount-step-close', op='rc-close', cost=1),
         dict(name='refcount-history-k%d' % k, op='rc-hist', k=k, cost=2 ** k, shards=1 if k <= 6 else 32, shard_depth=5),
         dict(name='shared', op='shared', cost=5),
+        dict(name='refcount-yielding-close', op='rc-yield', cost=50),
         dict(name='singleton-r2', op='singleton', n=2, cost=500, shards=8, shard_depth=4)]
   if tier != 'quick':
     js.append(dict(name='singleton-r3', op='singleton', n=3, cost=20000, shards=32, shard_depth=6))
@@ -110,6 +111,32 @@ def make_body(job):
         check('hist.count', s._ref_count == ref)
         check('hist.underlying-opens', u.opens == opens)
         check('hist.underlying-closes', u.closes == closes)
+    elif op == 'rc-yield':
+      # the underlying Close() takes a while (it yields to the hub); another holder opens the shared sink at a symbolic
+      # instant before / during / after that close
+      class SlowUnder(Under):
+        def Close(self):
+          self.closes += 1; self.closing = True
+          gevent.sleep(dur)
+          self._st = ChannelState.Closed; self.closing = False
+        def Open(self):
+          self.opens += 1; self._st = ChannelState.Open
+          return AsyncResult.Complete()
+      dur = fresh_real('close_takes', 0, 2, lo_strict=True)
+      u = SlowUnder(); u.closing = False
+      s = RefCountedSink(u)
+      s.Open()
+      at_close = fresh_real('last_holder_closes_at', 0, 2)
+      at_open = fresh_real('other_holder_opens_at', 0, 4)
+      def other_open():
+        if u.closing: cover('refcount-open-during-close')
+        s.Open()
+      gevent.spawn_later(at_close, s.Close)
+      gevent.spawn_later(at_open, other_open)
+      gevent.sleep(8)
+      # afterwards exactly one holder is left (the second opener): the underlying sink must be open
+      check('yield.count', s._ref_count == 1)
+      check('yield.underlying-open-while-held', u._st == ChannelState.Open)
     elif op == 'shared':
       created = []
       class NP(object):
